@@ -148,16 +148,44 @@ dispatch_time(dispatch_time_t inval, int64_t delta)
 dispatch_time_t
 dispatch_walltime(const struct timespec *inval, int64_t delta)
 {
-	int64_t nsec;
+	const int64_t nsec_per_sec = (int64_t)NSEC_PER_SEC;
+	int64_t sec, nsec, carry;
 	if (inval) {
-		nsec = (int64_t)_dispatch_timespec_to_nano(*inval);
+		sec = (int64_t)inval->tv_sec;
+		nsec = (int64_t)inval->tv_nsec;
 	} else {
-		nsec = (int64_t)_dispatch_get_nanoseconds();
+		uint64_t now = _dispatch_get_nanoseconds();
+		sec = (int64_t)(now / NSEC_PER_SEC);
+		nsec = (int64_t)(now % NSEC_PER_SEC);
 	}
-	nsec += delta;
+	// Work in whole seconds plus a sub-second remainder so that no
+	// intermediate value can overflow 64 bits, whatever the timespec and delta.
+	carry = nsec / nsec_per_sec + delta / nsec_per_sec;
+	nsec = nsec % nsec_per_sec + delta % nsec_per_sec;
+	carry += nsec / nsec_per_sec;
+	nsec %= nsec_per_sec;
+	if (nsec < 0) {
+		nsec += nsec_per_sec;
+		carry--;
+	}
+	if (os_add_overflow(sec, carry, &sec)) {
+		return carry < 0 ? (dispatch_time_t)-2ll : DISPATCH_TIME_FOREVER;
+	}
+	if (sec < 0) {
+		// before the epoch: already elapsed
+		return (dispatch_time_t)-2ll;
+	}
+	if (sec > (int64_t)(DISPATCH_TIME_MAX_VALUE / NSEC_PER_SEC)) {
+		return DISPATCH_TIME_FOREVER;
+	}
+	nsec += sec * nsec_per_sec;
 	if (nsec <= 1) {
 		// -1 is special == DISPATCH_TIME_FOREVER == forever
-		return delta >= 0 ? DISPATCH_TIME_FOREVER : (dispatch_time_t)-2ll;
+		return (dispatch_time_t)-2ll;
+	}
+	if ((uint64_t)nsec > DISPATCH_TIME_MAX_VALUE) {
+		// out of range for the wall clock encoding (would alias another clock)
+		return DISPATCH_TIME_FOREVER;
 	}
 	return (dispatch_time_t)-nsec;
 }
